@@ -9,8 +9,6 @@ From RCE Require Import lib.Bits model.Board model.Movegen model.Wf model.WfFull
   model.ChessSearch spec.Game proofs.ChessSearchProofs.
 Open Scope Z_scope.
 
-Definition chess_inv (b : Board) : Prop := wf_rules b = true /\ material_bounded b = true.
-
 (* the invariant is preserved along the search tree and bounds the evaluation *)
 Theorem C11_chess_inv_make : forall b m,
   chess_inv b -> In m (get_all_moves b) -> is_legal_move b m = true -> chess_inv (make_move b m).
